@@ -472,12 +472,96 @@ fn c15_for<S: AnyScan>(cfg: &Cfg, rep: &mut Report, timeouts: &[u64]) {
     });
 }
 
+
+/// All 16 channels busy at once: every channel selects a number and holds a data entry MSB (the
+/// polling scanner: all 16 pending together), in several channel orders; then the channels are
+/// polled / completed in another order, twice. Scanner-level summaries of per-channel state
+/// (counts, masks, "any pending" flags) saturate or wrap exactly here.
+fn c15_all_channels_busy<S: AnyScan>(cfg: &Cfg, rep: &mut Report, timeout: u64) {
+    let mut rng = Rng::derive(cfg.seed, 0xC15_16);
+    let asc: Vec<u8> = (0..16).collect();
+    let desc: Vec<u8> = (0..16).rev().collect();
+    let mut orders: Vec<Vec<u8>> = vec![asc.clone(), desc.clone()];
+    for _ in 0..cfg.size(1, 4, 24) {
+        let mut o = asc.clone();
+        for i in (1..16).rev() {
+            let j = rng.below(i as u64 + 1) as usize;
+            o.swap(i, j);
+        }
+        orders.push(o);
+    }
+    let step = if timeout == u64::MAX || timeout == 0 { TICK } else { timeout };
+    let mut scenarios = 0u64;
+    for o1 in &orders {
+        for o2 in &orders {
+            for variant in 0..3u8 {
+                let mut iso = Iso::<S>::new(timeout, [o1[0], o2[0]]);
+                let mut hist: Vec<Ev> = Vec::new();
+                macro_rules! ap {
+                    ($e:expr) => {{
+                        let e: Ev = $e;
+                        hist.push(e);
+                        let h = &hist;
+                        iso.apply(&e, rep, &|| h.iter().map(|e| e.render()).collect());
+                    }};
+                }
+                // phase 1: every channel selects its own number and sends a data entry MSB
+                for &c in o1 {
+                    ap!(Ev::cc(c, 99, c));
+                    ap!(Ev::cc(c, 98, 15 - c));
+                    if variant == 2 {
+                        ap!(Ev::cc(c, 38, c + 1)); // an unpaired LSB first
+                    }
+                    ap!(Ev::cc(c, 6, 100 + c));
+                }
+                // phase 2: time passes (or not), the channels are served in another order
+                if variant != 1 {
+                    ap!(Ev::Tick(step));
+                }
+                for &c in o2 {
+                    ap!(Ev::Poll(c));
+                    if variant == 1 {
+                        ap!(Ev::cc(c, 38, c)); // completes the pair instead
+                    }
+                }
+                // phase 3: once more, now in the first order; then everything is polled late
+                for &c in o1 {
+                    ap!(Ev::cc(c, 6, 50 + c));
+                }
+                ap!(Ev::Tick(step.saturating_mul(3)));
+                for &c in o2 {
+                    ap!(Ev::Poll(c));
+                    ap!(Ev::Poll(c));
+                }
+                // phase 4: only the last channel of the order gets new input
+                let last = *o2.last().unwrap();
+                ap!(Ev::cc(last, 6, 7));
+                ap!(Ev::Tick(step));
+                ap!(Ev::Poll(last));
+                scenarios += 1;
+                rep.evaluations += hist.len() as u64;
+                if rep.own_violations(&cfg.prop) >= 20 {
+                    break;
+                }
+            }
+        }
+    }
+    rep.count(&format!("c15_{}_all_16_channels_busy_scenarios", S::NAME), scenarios);
+}
+
 pub fn run_c15(cfg: &Cfg, rep: &mut Report) {
     rep.rule("lock-step differential twins: one shared scanner receives the interleaved stream, 16 solo scanners each receive only their channel's feeds/polls at the same (mock) clock instants; every output of the shared scanner must equal the solo scanner's and carry the triggering channel; system messages (all 16 status bytes) go to the shared scanner only and must return nothing and leave it equal. Exhaustive two-channel product to a fixpoint for ordered channel pairs (quick: 32 pairs, thorough: all 240) for all three scanners; seeded random interleavings of up to 16 channels over the full alphabet; distinct_nontrivial = explorer states + random interleavings with at least one report ; pair explorers rotate the abstract value per pair and additionally explore manager/member channel pairs (0,3), (15,12), (0,1) with spec-dictionary values {0,6}/{0,3} on the manager channel");
     c15_for::<ControlChange14BitMessageScanner>(cfg, rep, &[0]);
     c15_for::<ParameterNumberMessageScanner>(cfg, rep, &[0]);
     #[cfg(feature = "std")]
     c15_for::<PollingParameterNumberMessageScanner>(cfg, rep, if cfg.as_c18 { &[2 * TICK] } else { &[0, 2 * TICK] });
+    c15_all_channels_busy::<ControlChange14BitMessageScanner>(cfg, rep, 0);
+    c15_all_channels_busy::<ParameterNumberMessageScanner>(cfg, rep, 0);
+    #[cfg(feature = "std")]
+    for t in [2 * TICK, 0, u64::MAX] {
+        c15_all_channels_busy::<PollingParameterNumberMessageScanner>(cfg, rep, t);
+    }
+    rep.rule("all 16 channels busy at once (every channel selects a number and holds a data entry MSB; the polling scanner has all 16 pending together) in ascending, descending and seeded channel orders, served in another order, twice");
     rep.set_exhaustive(false);
     rep.sample(json!({"stream":["B5 63 03","B6 63 04","B5 62 25","B6 62 26","B5 06 7E","B6 06 7D"],"expected":"channel 5 and channel 6 each report exactly what a scanner of their own reports"}));
 }
@@ -1074,7 +1158,31 @@ fn c17_for<S: AnyScan>(cfg: &Cfg, rep: &mut Report, timeouts: &[u64]) {
             let mut now = *rng.pick(&[0u64, 1 << 33]);
             let len = rng.range(0, 60);
             let mut hist: Vec<Ev> = vec![Ev::Tick(now)];
-            for _ in 0..len {
+            if rng.chance(1, 4) {
+                // every one of the 16 channels has made progress when the reset comes (summaries
+                // of per-channel state such as dirty masks or counts are full exactly then)
+                let mut order: Vec<u8> = (0..16).collect();
+                for i in (1..16).rev() {
+                    let j = rng.below(i as u64 + 1) as usize;
+                    order.swap(i, j);
+                }
+                let depth = rng.below(4);
+                for &c in &order {
+                    let v = rng.below(128) as u8;
+                    let evs = [Ev::cc(c, 99, v), Ev::cc(c, 98, v), Ev::cc(c, 38, v), Ev::cc(c, 6, v)];
+                    for e in evs.iter().take(1 + depth as usize) {
+                        hist.push(*e);
+                        apply_plain(&mut s, &mut now, e);
+                    }
+                    if S::NAME == "cc14" {
+                        let e = Ev::cc(c, rng.below(32) as u8, v);
+                        hist.push(e);
+                        apply_plain(&mut s, &mut now, &e);
+                    }
+                }
+                rep.count(&format!("c17_{}_states_with_all_16_channels_in_progress", S::NAME), 1);
+            }
+            for _ in 0..(if hist.len() > 1 { len / 6 } else { len }) {
                 let e = S::random_event(&mut rng, 16, 128, &ticks);
                 hist.push(e);
                 apply_plain(&mut s, &mut now, &e);
